@@ -280,6 +280,15 @@ func bases(thorough bool) []base {
 		{"12-clientauth", world.Cfg{Cred: "ecdsa"}, world.Cfg{Cred: "ecdsa", ClientAuth: dtls.RequireAndVerifyClientCert}},
 		{"12-clientauth-rsa-server", world.Cfg{Cred: "ecdsa"}, world.Cfg{Cred: "rsa", ClientAuth: dtls.RequireAndVerifyClientCert}},
 		{"12-keytype-misfit", world.Cfg{Suites: []dtls.CipherSuiteID{sECDSAGCM}}, world.Cfg{Cred: "rsa"}},
+		// several certificates of different key kinds / a GetCertificate callback: the certificate presented
+		// depends on the ClientHello's server name, the suite has to fit the key of that one
+		{"12-multicert[ec,rsaalt]-sni=rsa", world.Cfg{ServerName: "rsa.server.test"}, world.Cfg{MultiCert: []string{"ecdsa", "rsaalt"}}},
+		{"12-multicert[rsaalt,ec]-sni=default", world.Cfg{}, world.Cfg{MultiCert: []string{"rsaalt", "ecdsa"}}},
+		{"12-multicert[ec,rsaalt]-sni=default", world.Cfg{}, world.Cfg{MultiCert: []string{"ecdsa", "rsaalt"}}},
+		{"12-multicert[rsaalt,ecalt]-sni=ec", world.Cfg{ServerName: "ec.server.test"}, world.Cfg{MultiCert: []string{"rsaalt", "ecalt"}}},
+		{"12-getcert-only[rsa]", world.Cfg{}, world.Cfg{Cred: "none", GetCertSNI: "rsa"}},
+		{"12-static-ec+getcert[rsa]", world.Cfg{}, world.Cfg{Cred: "ecdsa", GetCertSNI: "rsa"}},
+		{"12-static-rsa+getcert[ed25519]", world.Cfg{}, world.Cfg{Cred: "rsa", GetCertSNI: "ed25519"}},
 	}
 	if thorough {
 		epsk := world.Cfg{Cred: "psk", PSK: pskKey, Suites: []dtls.CipherSuiteID{sEPSKCBC}}
